@@ -820,7 +820,8 @@ class Executor:
         if isinstance(v, float):
             if v == int(v) and abs(v) < 1e15:
                 return Fraction(int(v))
-            return Fraction(v).limit_denominator(10**15)
+            # a decimal literal denotes the decimal number written in the source (shortest repr that round-trips), e.g. 1.12 = 28/25
+            return Fraction(repr(v))
         return v
 
     def ev_Name(self, node, path):
